@@ -16,7 +16,7 @@ POOL_RE = [("R", r"\d+", ["0", "42", "007"]), ("R", r"[a-z]+", ["x", "if", "abc"
            ("R", r'"[^"]*"', ['""', '"a b"', '"\u00e9"', '"x\n\u017e\u0107"', '"\n\u2192"']), ("R", r"[α-ω]+", ["αβ", "ω"]),
            ("R", r"[A-Z]\w*", ["Ab", "X"]), ("R", r"(a|b)+", ["abba", "b"]), ("R", r"a*b", ["aab", "b"])]
 WS_CHOICES = [" ", " ", " ", "  ", "\t", "\n", "\r\n", " \n  ", "\u00a0", "\u3000", "", "\n\u3000", "\n\u00a0 ",
-              " \n\u2003\u2003", "\u000b", "\u0085"]
+              " \n\u2003\u2003", "\u000b", "\u0085", " \r", "\n\r ", "\r \n"]
 
 
 class BG:
